@@ -4,7 +4,7 @@ from props.common import TRUSTED_BASE, ASSUMPTIONS
 
 ID = "C10"
 FORMAT_GROUP = "total"
-LEAN_MODULES = ["LexVerif.Props.C10", "LexVerif.Props.C10Debug", "LexVerif.Props.Literals.ParseFloatParse", "LexVerif.Props.Literals.ParseFloatShared", "LexVerif.Props.Literals.ParseIntegerAlgorithm", "LexVerif.Props.Literals.UtilSkip", "LexVerif.Props.Literals.UtilNoskip", "LexVerif.Props.Literals.UtilIterator", "LexVerif.Props.Literals.UtilDigit", "LexVerif.Props.Literals.ParseFloatApi", "LexVerif.Props.Literals.ParseIntegerApi", "LexVerif.Props.Literals.ParseFloatSlow", "LexVerif.Props.Literals.ParseFloatBigint"]
+LEAN_MODULES = ["LexVerif.Props.C10", "LexVerif.Props.C04Format", "LexVerif.Props.C10Debug", "LexVerif.Props.Literals.ParseFloatParse", "LexVerif.Props.Literals.ParseFloatShared", "LexVerif.Props.Literals.ParseIntegerAlgorithm", "LexVerif.Props.Literals.UtilSkip", "LexVerif.Props.Literals.UtilNoskip", "LexVerif.Props.Literals.UtilIterator", "LexVerif.Props.Literals.UtilDigit", "LexVerif.Props.Literals.ParseFloatApi", "LexVerif.Props.Literals.ParseIntegerApi", "LexVerif.Props.Literals.ParseFloatSlow", "LexVerif.Props.Literals.ParseFloatBigint"]
 GEN = ["literals"]
 PROFILES = {"quick": ["release", "dbg"], "thorough": ["release", "dbg"]}
 TRUSTED = TRUSTED_BASE + [
@@ -43,7 +43,9 @@ LEVEL_TEXT = ("Props/C10.lean (complete, release mode): parseNumber_total / pars
 LEVEL_NOTE = ("Trusted: Lean kernel; rustc; that the models mirror the Rust control flow (correspondence only: C12 stream 871k ops + this "
               "property's arbitrary-byte streams, release and dbg profiles). Actual over-reads are only observable through the guard "
               "page (one byte past the end faults; reads before the start are not caught). The integer parser with the `format` feature "
-              "(prefix/suffix/separators) has no Lean model yet: covered by correspondence only.")
+              "(prefix/suffix/separators) is modelled by Model.ParseIntFormat (Props/C04Format.lean: total for the formats without "
+              "separator/prefix/suffix/leading-zero flag, decided debug panic witness '1h_'; other formats: full statement kept as a def, "
+              "correspondence 0 mismatches on all pi ops).")
 
 
 def feature_sets(tier):
